@@ -217,6 +217,8 @@ enum Adapter {
     /// `.filter(p)`: only as the last adapter of a `for` loop's iterator
     Filter(syn::ExprClosure),
     Flatten,
+    /// `m.values()`: the value half of each (key, &value) entry of the map's model view (only with a side-car `opt=via:<place>:<fn>`)
+    Values,
 }
 
 #[derive(Clone)]
@@ -250,6 +252,7 @@ fn parse_iter(e: &Expr, bare_ok: bool) -> Option<Iter> {
                     Some(it)
                 }
                 ("iter", 0) => Some(Iter { src: Src::Index { base: (*m.receiver).clone(), by_ref: true }, adapters: vec![] }),
+                ("values", 0) => Some(Iter { src: Src::Index { base: (*m.receiver).clone(), by_ref: true }, adapters: vec![Adapter::Values] }),
                 ("into_iter", 0) => Some(Iter { src: Src::Index { base: (*m.receiver).clone(), by_ref: false }, adapters: vec![] }),
                 ("copied", 0) | ("cloned", 0) => {
                     let mut it = parse_iter(&m.receiver, false)?;
@@ -746,6 +749,7 @@ impl Norm {
         // side-car can name the iterated sequence whatever expression produced it
         let via_key = quote!(#base).to_string().replace(' ', "");
         let via_fn = self.via.iter().find(|(k, _)| *k == via_key).map(|(_, f)| id(f));
+        let via_used = via_fn.is_some();
         let base = if let Some(f) = via_fn {
             // elements of a std set / map through the prelude model function (N2s)
             let rb = ref_of(base);
@@ -781,6 +785,12 @@ impl Norm {
         // adapters are applied in source order; `lo` is the underlying index of the current iterator's first item
         while !ads.is_empty() {
             match ads.remove(0) {
+                Adapter::Values => {
+                    // N2s: `m.values()` — entries come from the model function as (key, &value); without one the construct is outside the subset
+                    if !via_used { return None; }
+                    elem = parse_quote!((#elem).1);
+                    notes.push("values");
+                }
                 Adapter::Take(n) => {
                     let n = self.bind_simple(n, "take", pre);
                     let h = self.fresh("hi");
